@@ -8,7 +8,7 @@ License: 3-clause BSD. (See the COPYRIGHT file)
 from __future__ import annotations
 
 import string
-from typing import Iterator, overload
+from typing import Iterable, Iterator, overload
 
 from exabgp.util.types import Buffer
 
@@ -22,6 +22,23 @@ def hexstring(value: Buffer) -> str:
             yield '{:02X}'.format(v)
 
     return '0x' + ''.join(spaced(value))
+
+
+def json_members(members: Iterable[str]) -> str:
+    """Join the rendered `"key": value` members of one JSON object.
+
+    A key which occurs more than once is written once, holding the list of its values: a TLV
+    a peer repeats must not put the same key twice in one object, because every reader then
+    keeps one of the two and the peer chooses which.
+    """
+    grouped: dict[str, list[str]] = {}
+    for member in members:
+        key, _, value = member.partition(': ')
+        grouped.setdefault(key, []).append(value)
+    return ', '.join(
+        f'{key}: {values[0]}' if len(values) == 1 else f'{key}: [ {", ".join(values)} ]'
+        for key, values in grouped.items()
+    )
 
 
 def hexbytes(value: bytes) -> bytes:
